@@ -403,22 +403,6 @@ theorem bd_mle_split_term (e : Fin d → K) (k : Nat) :
   simp only [Calib.rms2, Factorisation.rmsSize, Nat.cast_mul]
   rw [← Finset.sum_div, div_div]
 
-theorem list_sum_finset_sum (E : List (Fin d → K)) (g : K → K) (hg : ∀ x y, g (x + y) = g x + g y) (h0 : g 0 = 0) :
-    (∑ a, (E.map fun e => g (e a)).sum) = (E.map fun e => g (∑ a, e a)).sum := by
-  have hsum : ∀ (e : Fin d → K), g (∑ a, e a) = ∑ a, g (e a) := by
-    intro e
-    have : ∀ (S : Finset (Fin d)), g (∑ a ∈ S, e a) = ∑ a ∈ S, g (e a) := by
-      intro S
-      induction S using Finset.induction_on with
-      | empty => simp [h0]
-      | insert a S ha ih => rw [Finset.sum_insert ha, Finset.sum_insert ha, hg, ih]
-    exact this Finset.univ
-  induction E with
-  | nil => simp
-  | cons e rest ih =>
-    simp only [List.map_cons, List.sum_cons, Finset.sum_add_distrib]
-    rw [ih, hsum]
-
 /-- **bd_mle_split.** Over a whole run with per-step slice energies `E` (the same slice run serves the
 block-diagonal and the isotropic model when the covariances are `C ⊗ I`): the block-diagonal per-dimension MLE
 scales² average to the dense / isotropic MLE scale². -/
@@ -432,7 +416,7 @@ theorem bd_mle_split [CharZero K] (E : List (Fin d → K)) (k : Nat) :
     induction E with
     | nil => simp
     | cons e rest ih => simp only [List.map_cons, List.sum_cons, ih, add_div, div_div]
-  have h := list_sum_finset_sum E (fun x => x / ((k : ℕ) : K)) (fun x y => add_div x y _) (zero_div _)
+  have h := FactorL.list_sum_finset_sum E (fun x => x / ((k : ℕ) : K)) (fun x y => add_div x y _) (zero_div _)
   simp only [Calib.rms2, Factorisation.rmsSize, Nat.cast_mul]
   rw [h, h2]
   ring
